@@ -43,7 +43,7 @@ SCHEMES = te.SCHEMES
 def plan(tier):
     req = (["scheme:%s|%s" % (s, m) for s in SCHEMES for m in ("real", "imag")]
            + ["A:order", "A:exact", "ps:complete-bonds", "ps:incomplete-bonds", "D:splitting", "E:conservation", "E:truncated",
-              "F:bond-limit", "linear-vs-chain", "aux-space", "history", "normalised", "state:product", "sector-checked",
+              "F:bond-limit", "G:per-bond-limits", "linear-vs-chain", "aux-space", "history", "normalised", "state:product", "sector-checked",
               "multi-set-node", "dummy-node", "branching", "qn-none", "qn-one", "qn-two", "state:complex-amplitudes"]
            + ["kind:" + k for k in trees.ALL_KINDS])
     base = {"case_time_limit": 600, "required_classes": req}
@@ -336,6 +336,41 @@ def oracle_F(ctx, tm, full, qntot):
             leak = te.sector_leak(tm, te.dense_of(cur, tm.order), qntot)
             ctx.check(leak <= 1e-10 * max(float(np.linalg.norm(te.dense_of(cur, tm.order))), 1e-300),
                       f"sector|{sc}|{mode_of(imag)}|amplitude-outside-the-sector", leak=leak, truncated=True)
+
+
+def oracle_G(ctx, tm, full, psi, qntot, complete):
+    """Per-bond limits (CompressConfig.max_dims, one entry per node) that are SUFFICIENT - every bond may keep what the
+    full-rank state already has - must leave the two-site scheme as accurate as without limits, and every bond within
+    its own limit."""
+    from renormalizer.utils import CompressConfig, CompressCriteria
+    rng = ctx.rng
+    sc = "tdvp_ps2"
+    if not allow_ps2(ctx, tm) or len(tm.tree.node_list) < 3:
+        return
+    ctx.cls("G:per-bond-limits")
+    n = len(tm.tree.node_list)
+    own = [int(b) for b in full.bond_dims]              # bond to the parent, node by node (pre-order)
+    limits = np.array([b + int(rng.integers(0, 2)) for b in own] + [1], dtype=int)
+    imag = bool(rng.random() < 0.3)
+    order = order_of(sc, complete)
+    x = step_size(ctx, sc, order, imag)
+    tau = -1j * x if imag else x
+    s = te.fresh_copy(full, sc)
+    cfg = CompressConfig(CompressCriteria.fixed, max_bonddim=int(max(limits)))
+    cfg.set_bonddim(n + 1)
+    cfg.max_dims = limits.copy()
+    s.compress_config = cfg
+    out = te.guarded_evolve(ctx, tm, s, tm.ttno, tau, False, f"evolve|{sc}|{mode_of(imag)}|per-bond-limits", sc)
+    ref = te.exact(tm, psi, tau)
+    e = float(np.linalg.norm(te.dense_of(out, tm.order) - ref)) / max(float(np.linalg.norm(ref)), 1e-300)
+    bound = (10 * x ** (order + 1) + 1e-9) if order is not None else EXACT_BOUND[sc]
+    ctx.count("oracle", 2)
+    ctx.check(e <= bound, f"G|{sc}|{mode_of(imag)}|sufficient-per-bond-limits-change-the-result", err=e, bound=bound, limits=limits.tolist(),
+              bonds_before=own, bonds_after=list(map(int, out.bond_dims)))
+    ctx.check(all(int(b) <= int(l) for b, l in zip(out.bond_dims, limits)), f"G|{sc}|bond-exceeds-its-own-limit",
+              limits=limits.tolist(), bonds=list(map(int, out.bond_dims)))
+    if len(set(limits[:-1].tolist())) > 1:
+        ctx.nontrivial(("G", trees.tree_shape_key(tm.tree), limits.tolist(), mode_of(imag), round(x, 3)))
 
 
 def oracle_history(ctx, tm, full, psi, qntot, complete):
@@ -641,6 +676,7 @@ def run_case(ctx):
             oracle_D(ctx, tm, light[0], full, psi, q, bool(rng.random() < 0.5), complete)
     elif extra == 2:
         oracle_F(ctx, tm, full, q)
+        oracle_G(ctx, tm, full, psi, q, complete)
     elif extra == 3:
         oracle_chain(ctx)
     elif extra == 4:
